@@ -11,8 +11,8 @@ from ..pipeline import Leg
 ID = 'C06'
 HARNESS_BIN = 'c06'
 RUN_MODULE = 'Run.C06'
-THEOREMS = ['C06_get_complete', 'C06_crash_safe', 'C06_crash_then_get', 'C06_uncommitted_invisible',
-            'C06_hex_keys_not_temp']
+THEOREMS = ['C06_get_complete', 'C06_no_errors', 'C06_crash_safe', 'C06_crash_then_get',
+            'C06_uncommitted_invisible', 'C06_lookup_visible', 'C06_hex_keys_not_temp']
 ASSUMPTIONS = [
     'atomic steps are the lock sections of DiskCache::put/get (Reserve, each chunk of the unlocked write, Commit or '
     'Abandon; Open, Read); rename(2) switches a directory entry atomically and an open descriptor keeps reading the '
@@ -21,8 +21,12 @@ ASSUMPTIONS = [
     'empty — not modelled, the property speaks of the server dying',
     'key paths never collide with temp-file names: make_key_path of a hex key never has a file name starting with '
     'TEMPFILE_PREFIX (proved: C06_hex_keys_not_temp), so temp files live in their own name space in the model',
-    'LruDiskCache::new failing (cache root not creatable), I/O errors and write_all failures are not injected in the '
-    'differential leg (the Abandon path is modelled and covered by the theorems only)',
+    'the only injected I/O failure is a failing write_all (EFBIG via RLIMIT_FSIZE, exercising the Abandon path); '
+    'LruDiskCache::new failing (cache root not creatable) and failing flush/metadata/rename are not modelled',
+    'a crash in the middle of the unlocked write is imitated by the harness writing that prefix of the entry into the '
+    'call\'s temp file (the real write_all cannot be parked half way); recovery never looks at temp file contents',
+    'restart uses LruDiskCache::new on the surviving directory; file mtimes are assumed distinct and not in the future '
+    '(Lru dir_ok) for the no-error and size statements',
     'no other process touches the cache directory',
 ]
 TRUSTED = ['hook H2: verif_hooks::sync at put.before_reserve / put.reserved / put.written / put.committed / '
@@ -44,9 +48,9 @@ def elens():
     return _ELEN
 
 
-def put(key, name, chunks=1):
+def put(key, name, chunks=1, fail=0):
     pid, plen = PAYLOADS[name]
-    return [b'put', key, pid, plen, elens()[name], chunks]
+    return [b'put', key, pid, plen, elens()[name], chunks, fail]
 
 
 def get(key):
@@ -103,6 +107,9 @@ def shapes(tier):
     sh.append(('one put', big, [], [put(K1, 'A', 3)]))
     sh.append(('one put too large', e['D'] - 1, [ini(K2, 'C', 5)], [put(K1, 'D')]))
     sh.append(('one put fills the cache', e['D'], [ini(K2, 'C', 5)], [put(K1, 'D', 2)]))
+    sh.append(('failing write/get over an old entry', big, [ini(K1, 'C', 5)], [put(K1, 'A', 2, 1), get(K1)]))
+    sh.append(('failing write/put under pressure', e['A'] + e['B'] - 1, [], [put(K1, 'A', 1, 1), put(K2, 'B')]))
+    sh.append(('one failing write', big, [], [put(K1, 'D', 2, 1)]))
     sh.append(('one get', big, [ini(K1, 'C', 5)], [get(K1)]))
     sh.append(('one get, oversized old entry', e['C'] - 1, [ini(K1, 'C', 5)], [get(K1)]))
     three = [
@@ -114,28 +121,69 @@ def shapes(tier):
     return sh, three
 
 
+POOL_KEYS = [K1, K2, K3]
+
+
+def gen_random(rng, n, maxthreads):
+    """random call sets, capacities and initial directories; a random interleaving cut at a random point"""
+    e = elens()
+    names = sorted(PAYLOADS)
+    out = []
+    for _ in range(n):
+        nt = rng.range(2, maxthreads)
+        ths = []
+        for _ in range(nt):
+            k = rng.choice(POOL_KEYS)
+            if rng.chance(2, 3):
+                ths.append(put(k, rng.choice(names), rng.range(1, 3), 1 if rng.chance(1, 8) else 0))
+            else:
+                ths.append(get(k))
+        init = []
+        for j, k in enumerate(POOL_KEYS):
+            if rng.chance(1, 2):
+                init.append(ini(k, rng.choice(names), 3 + j))
+        if rng.chance(1, 6):
+            init.append(ini(b'.sccachetmpZ%d' % rng.below(3), rng.choice(names), 9))
+        sizes = sorted(t[4] for t in ths if t[0] == b'put') or [100]
+        cap = rng.choice([100000, sizes[-1], sizes[-1] + sizes[0] - 1, sum(sizes) - 1, sum(sizes) + 50, sizes[0]])
+        left = [nsteps(t) for t in ths]
+        sched = []
+        while any(left):
+            i = rng.below(len(ths))
+            if left[i]:
+                left[i] -= 1
+                sched.append(i)
+        cut = rng.below(len(sched) + 1) if rng.chance(2, 3) else len(sched)
+        out.append([cap, init, ths, sched[:cut]])
+    return out
+
+
 def gen_cases(rng, tier):
     two, three = shapes(tier)
     out = []
-    for name, cap, init, ths in two:
+    for name, cap, init, ths in two + three:
         for p in prefixes(ths):
             out.append([cap, init, ths, p])
-    for name, cap, init, ths in three:
-        ps = prefixes(ths)
-        if tier != 'thorough':
-            ps = [ps[rng.below(len(ps))] for _ in range(250)]
-        for p in ps:
-            out.append([cap, init, ths, p])
+    # the other order of the thread list, other chunkings
+    for name, cap, init, ths in two:
+        if len(ths) == 2:
+            alt = [list(t) for t in reversed(ths)]
+            for t in alt:
+                if t[0] == b'put':
+                    t[5] = 3
+            for p in prefixes(alt):
+                out.append([cap, init, alt, p])
     if tier == 'thorough':
-        # more chunkings and both orders of the thread list
-        for name, cap, init, ths in two:
-            if len(ths) == 2:
-                alt = [list(t) for t in reversed(ths)]
-                for t in alt:
-                    if t[0] == b'put':
-                        t[5] = 3
-                for p in prefixes(alt):
-                    out.append([cap, init, alt, p])
+        for name, cap, init, ths in three:
+            alt = [list(t) for t in reversed(ths)]
+            for t in alt:
+                if t[0] == b'put':
+                    t[5] = 2
+            for p in prefixes(alt):
+                out.append([cap, init, alt, p])
+        out += gen_random(rng, 60000, 4)
+    else:
+        out += gen_random(rng, 4000, 4)
     return out
 
 
@@ -174,11 +222,17 @@ def monitor(case, out):
             vs.append('call %d %s never reached its next step (deadlock)' % (i, t[:2]))
             continue
         if r == b'err':
+            if t[0] == b'put' and t[6]:
+                if len(occ[i]) < t[5] + 2:
+                    vs.append('store %d gave up before its write had failed' % i)
+                continue  # its own write failed: the call must end with an error and leave nothing behind
             vs.append('call %d %s failed with an error' % (i, t[:2]))
             continue
         if t[0] == b'put':
             need = t[5] + 2
-            if r == b'ok':
+            if r == b'ok' and t[6]:
+                vs.append('store %d reported success although its write failed' % i)
+            elif r == b'ok':
                 if len(occ[i]) < need:
                     vs.append('store %d reported success before its commit step' % i)
                 else:
@@ -280,11 +334,18 @@ def neighbours(case):
         yield [cap, init, ths, p]
 
 
+def extra(rep, known):
+    # every case of the disk leg is a trace of the real code stepped through the model's schedule
+    rep.traces = rep.legs.get('disk', {}).get('cases', 0) - rep.legs.get('disk', {}).get('disagreements', 0)
+
+
 def legs(tier):
     return [Leg('disk', gen_cases, monitor=monitor, nontrivial=nontrivial, shrink=shrink, neighbours=neighbours,
                 stats=stats,
-                rule='EXHAUSTIVE: every distinct prefix (= crash point) of every interleaving of the 2-call and 1-call '
+                rule='EXHAUSTIVE: every distinct prefix (= crash point) of every interleaving of 21 one- and two-call '
                      'shapes (put/put same key, put/get, put/put under capacity pressure, get/get, eviction of an open '
-                     'entry, leftover temp files, ...), 3-call shapes sampled (quick) / exhaustive (thorough); the real '
-                     'put/get are stepped through the schedule at the H2 sync points; non-trivial = at least one step '
-                     'executed; distinct by full case text')]
+                     'entry, leftover temp files, failing writes, ...) in both thread orders and several chunkings, and '
+                     'of 4 three-call shapes; plus PRNG call sets of 2-4 calls over 3 keys x 5 payloads x 6 capacities '
+                     'with random initial directories, a random interleaving cut at a random point (4000 quick / 60000 '
+                     'thorough); the real put/get are stepped through the schedule at the H2 sync points; '
+                     'non-trivial = at least one step executed; distinct by full case text')]
